@@ -297,8 +297,13 @@ func (s *InmemStore) Reset(frame *Frame) error {
 	s.consensusCache = cm.NewRollingIndex("ConsensusCache", s.cacheSize)
 	s.lastConsensusEvents = map[string]string{}
 
-	//Set Roots from Frame
-	s.roots = frame.Roots
+	//Set Roots from Frame. Copy the map: roots are added to it below for
+	//participants without one, and the Frame itself (which is stored and may
+	//be served to other nodes) must keep hashing to the Block's FrameHash.
+	s.roots = make(map[string]*Root, len(frame.Roots))
+	for p, r := range frame.Roots {
+		s.roots[p] = r
+	}
 
 	for round, ps := range frame.PeerSets {
 		if err := s.SetPeerSet(round, peers.NewPeerSet(ps)); err != nil {
